@@ -1,6 +1,7 @@
 from __future__ import annotations
 
 import logging
+import tempfile
 from collections import defaultdict
 from pathlib import Path
 
@@ -104,7 +105,12 @@ def _get_nearest_init_dirs(root: Path) -> list[Path]:
 
 def _get_mypy_build(files: list[str]) -> mypy_build.BuildResult:
     """Build a mypy checker and return the build result."""
-    mypyfiles, opt = mypy_main.process_options(files)
+    # An empty configuration file of our own: the result must not depend on a mypy.ini, setup.cfg or pyproject.toml that
+    # happens to lie in the working directory
+    with tempfile.TemporaryDirectory() as config_dir:
+        config_file = Path(config_dir) / "mypy.ini"
+        config_file.write_text("[mypy]\n", encoding="utf-8")
+        mypyfiles, opt = mypy_main.process_options(["--config-file", str(config_file), *files])
 
     # Disable the memory optimization of freeing ASTs when possible
     opt.preserve_asts = True
@@ -135,6 +141,11 @@ def _get_mypy_asts(
                 package_ast.append(ast)
         elif ast.path in files:
             module_ast.append(ast)
+
+    # The order must not depend on the order in which the files were found. Packages come before their sub-packages, so that
+    # the reexports of a package are known when the declarations of its sub-packages are analysed
+    package_ast.sort(key=lambda ast: (len(Path(ast.path).parts), ast.path))
+    module_ast.sort(key=lambda ast: ast.path)
 
     # The packages need to be checked first, since we have to get the reexported data first
     return package_ast + module_ast
